@@ -15,6 +15,7 @@ from sklearn.dummy import DummyClassifier
 
 from fairlearn.reductions._moments import ClassificationMoment
 from fairlearn.reductions._moments.moment import Moment
+from fairlearn.utils import _verif_trace
 
 from ._constants import _INDENTATION, _LINE, _PRECISION
 
@@ -266,6 +267,13 @@ class _Lagrangian:
             self.lambdas[h_idx] = lambda_vec.copy()
             best_idx = h_idx
 
+        if _verif_trace._ON:
+            _verif_trace.emit(
+                "oracle",
+                idx=int(best_idx),
+                added=bool(best_idx == len(self.hs) - 1 and h_value < best_value - _PRECISION),
+                n_hs=len(self.hs),
+            )
         return self.hs[best_idx], best_idx
 
 
